@@ -178,6 +178,13 @@ class Engine:
         for m in self.monitors:
             m.before(self, op)
         ok = True
+        thresholds = None
+        if self.gc_plan == "aggressive":
+            # the cyclic collector runs after (almost) every container allocation: collections land inside the library's own
+            # calls, between its detach / sweep / write steps, not only between two operations of the driver
+            thresholds = gc.get_threshold()
+            gc.set_threshold(1, 1, 1)
+            rec.see("aggressive-gc-ops")
         try:
             getattr(self, "op_" + kind)(op)
         except ExpectedRefusal as r:
@@ -192,6 +199,9 @@ class Engine:
                 raise
             rec.fail(f"{self.prop}.op-raises", op=kind, cls=op.get("cls", ""), attr=f"{type(exc).__name__}@{fn}", detail=f"{op} -> {op['raised']}")
             self.aborted = op
+        finally:
+            if thresholds is not None:
+                gc.set_threshold(*thresholds)
         self.log.append(op)
         if os.environ.get("GVM_TRACE"):
             print("OP", {k: v for k, v in op.items() if k != "removed"}, flush=True)
